@@ -4,6 +4,7 @@ package websocket
 
 import (
 	"bufio"
+	"bytes"
 	"context"
 	"crypto/rand"
 	"crypto/tls"
@@ -103,6 +104,8 @@ type vfDialIn struct {
 	proto                     string
 	body                      int
 	frames                    bool
+	bigFrames                 bool
+	second                    bool
 }
 
 // vfHeadBytes renders a response head a real HTTP/1.1 parser reads back as the
@@ -136,13 +139,13 @@ func vfH_dial_logic() {
 	forbidden := false // the caller tried to set a protocol-owned header
 	malformed := false
 	tier := vfParam("tier", 0)
-	d1 := vfChoose(14)
+	d1 := vfChoose(16)
 	if f := vfParam("dim", -1); f >= 0 {
 		d1 = f
 	}
 	d2 := 99
 	if tier >= 1 {
-		d2 = vfChoose(15)
+		d2 = vfChoose(14)
 	}
 	for _, dim := range []int{d1, d2} {
 		switch dim {
@@ -281,6 +284,15 @@ func vfH_dial_logic() {
 			}
 		case 14: // frames glued to the 101 response
 			in.frames = true
+			if vfChoose(2) == 1 {
+				// a large read buffer and more than 4 KiB arriving with the response
+				in.d.ReadBufferSize = 8192
+				in.bigFrames = true
+			}
+		case 15: // a second dial with the same Dialer and TLS configuration
+			in.scheme = "wss"
+			in.d.TLSClientConfig = &tls.Config{}
+			in.second = true
 		}
 	}
 	// URL string and what a URL parser makes of it
@@ -318,7 +330,11 @@ func vfH_dial_logic() {
 	body := vfBytes(in.body)
 	gen := &vfGen{fromClient: false}
 	if in.frames {
-		gen.message(TextMessage, vfBytes(3), false, 0, []int{1, -1}, -1, 0, nil)
+		n1 := 3
+		if in.bigFrames {
+			n1 = 5000
+		}
+		gen.message(TextMessage, vfBytes(n1), false, 0, []int{1, -1}, -1, 0, nil)
 		gen.message(BinaryMessage, vfBytes(2), false, 0, []int{-1}, -1, 0, nil)
 	}
 	tc := vfNewConn(nil)
@@ -391,6 +407,13 @@ func vfH_dial_logic() {
 	}
 	// natively the real Request.Write runs: the scripted server finds the key in the bytes
 	tc.onWrite = func(p []byte) {
+		if !vfSymbolic() {
+			// native replay: the real net/http serialised the request; an
+			// independent parser reads it back for the request assertions
+			if rq, perr := http.ReadRequest(bufio.NewReader(bytes.NewReader(p))); perr == nil {
+				vfReqLog = append(vfReqLog, vfReqRec{req: rq})
+			}
+		}
 		if scripted || len(p) < 4 || string(p[:4]) != "GET " {
 			return
 		}
@@ -425,7 +448,27 @@ func vfH_dial_logic() {
 		tc.in = append(tc.in, gen.wire...)
 		tc.cut = len(tc.in)
 	}
-	vfAllocBound(6000)
+	vfAllocBound(12000)
+	if in.second {
+		// an earlier dial to another host with the same Dialer: whatever it did to
+		// the shared configuration must not leak into the dial under test
+		first := "wss://first.example/"
+		vfHintURL(first, &vfURLParts{scheme: "wss", host: "first.example", path: "/"})
+		saveQ := vfRespQueue
+		vfRespQueue = []*vfRespSpec{{err: vfErrBadResponse}} // the first server answers garbage
+		hook := vfOnRequest
+		vfOnRequest = nil
+		saveW := tc.onWrite
+		tc.onWrite = nil
+		fc, _, _ := in.d.DialContext(&vfCtx{}, first, nil)
+		vfAssert(fc == nil, "first-dial-fails-harmlessly") // no reply was scripted for it
+		vfRespQueue, vfOnRequest, tc.onWrite = saveQ, hook, saveW
+		vfReqLog, vfTLSLog = nil, nil
+		dials = nil
+		dialedConns = nil
+		kr.draws = nil
+		tc.ops, tc.closed, tc.in, tc.rpos, tc.cut, tc.rerr, tc.nwops = nil, 0, nil, 0, 0, nil, 0
+	}
 
 	c, resp, err := in.d.DialContext(in.ctx, in.urlStr, callerHdr)
 
@@ -469,13 +512,38 @@ func vfH_dial_logic() {
 		if in.scheme == "wss" {
 			wantScheme = "https"
 		}
-		vfAssert(wsReq.URL.Scheme == wantScheme && wsReq.URL.Host == in.host && wsReq.URL.Path == in.path && wsReq.URL.RawQuery == in.query, "c14-request-url-preserved")
+		if vfSymbolic() {
+			vfAssert(wsReq.URL.Scheme == wantScheme && wsReq.URL.Host == in.host, "c14-request-url-preserved")
+		}
+		wantPath := in.path
+		if !vfSymbolic() && wantPath == "" {
+			wantPath = "/" // the request line carries "/" for an empty path
+		}
+		vfAssert(wsReq.URL.Path == wantPath && wsReq.URL.RawQuery == in.query, "c14-request-url-preserved")
 		wantHost := in.host
 		if in.hostOverride != "" {
 			wantHost = in.hostOverride
 		}
 		vfAssert(wsReq.Host == wantHost, "c14-request-host")
-		h := wsReq.Header
+		h := http.Header{}
+		for k, vs := range wsReq.Header {
+			if vfSymbolic() {
+				h[k] = vs
+			} else {
+				// the native parser canonicalises names: map them back to the RFC spelling
+				switch k {
+				case "Sec-Websocket-Key":
+					k = "Sec-WebSocket-Key"
+				case "Sec-Websocket-Version":
+					k = "Sec-WebSocket-Version"
+				case "Sec-Websocket-Protocol":
+					k = "Sec-WebSocket-Protocol"
+				case "Sec-Websocket-Extensions":
+					k = "Sec-WebSocket-Extensions"
+				}
+				h[k] = vs
+			}
+		}
 		vfAssert(len(h["Upgrade"]) == 1 && h["Upgrade"][0] == "websocket", "c14-request-upgrade-header")
 		vfAssert(len(h["Connection"]) == 1 && h["Connection"][0] == "Upgrade", "c14-request-connection-header")
 		vfAssert(len(h["Sec-WebSocket-Version"]) == 1 && h["Sec-WebSocket-Version"][0] == "13", "c14-request-version-13")
@@ -496,6 +564,9 @@ func vfH_dial_logic() {
 				continue
 			}
 			vfAssert(len(h[k]) == len(vs) && vfStrEq(h[k][0], vs[0]), "c14-caller-headers-included")
+		}
+		if !vfSymbolic() {
+			delete(h, "User-Agent") // added by net/http's serialiser
 		}
 		// no protocol-owned header appears under a second spelling
 		n := 0
